@@ -7,6 +7,7 @@ import (
 	"fmt"
 	"os"
 	"path/filepath"
+	"regexp"
 	"sort"
 	"strings"
 )
@@ -48,6 +49,22 @@ func loadKnown(verif string) *knownFile {
 		json.Unmarshal(data, k)
 	}
 	return k
+}
+
+// Safety obligations are generated per instruction ("F/index#17"); their ordinals move when the function is edited.
+// The baseline therefore records them per function and kind ("F/index": every index expression of F is in bounds):
+// an unproved site fails that aggregated obligation whatever its ordinal, and a site that no longer exists is no alarm.
+var siteRe = regexp.MustCompile(`^(.*/)(index|slice|nilderef|nilfunc|nilinvoke|typeassert|makelen|alloccap|divzero|shiftneg|nilmapstore|chansend|chanclose|panic|assigns|requires@[^#]*)#\d+((\.\d+)?)$`)
+
+func baseKey(name string) string {
+	if m := siteRe.FindStringSubmatch(name); m != nil {
+		return m[1] + m[2] + m[3]
+	}
+	return name
+}
+
+func isSiteKey(key string) bool {
+	return siteRe.MatchString(key+"#0") || siteRe.MatchString(regexp.MustCompile(`(\.\d+)$`).ReplaceAllString(key, "#0$1"))
 }
 
 func aggregate(obls []*Obligation) []*summaryRow {
@@ -155,6 +172,7 @@ func report(cfg *config, e *Engine, results []*funcResult, tLoad, tGen, tSolve, 
 	for _, r := range rows {
 		solverS += r.Secs
 		seen[r.Name] = true
+		seen[baseKey(r.Name)] = true
 		switch r.Kind {
 		case "cover":
 			if r.Status == "vacuous" {
@@ -168,7 +186,7 @@ func report(cfg *config, e *Engine, results []*funcResult, tLoad, tGen, tSolve, 
 			continue
 		}
 		ok := r.Status == "unsat" || r.Status == "trivial"
-		if len(inBase) > 0 && !inBase[r.Name] && !cfg.updateBaseline {
+		if len(inBase) > 0 && !inBase[baseKey(r.Name)] && !cfg.updateBaseline {
 			// not part of the claimed (baseline) set: reported, never counted
 			if ok {
 				extraProved = append(extraProved, r.Name)
@@ -201,7 +219,7 @@ func report(cfg *config, e *Engine, results []*funcResult, tLoad, tGen, tSolve, 
 		if ok && fnReach != "" {
 			// proved instances of a function that was not explored completely do not count
 			undecided = append(undecided, r.Name+" (function out of reach: "+fnReach+")")
-			if inBase[r.Name] {
+			if inBase[baseKey(r.Name)] {
 				if kf, isK := knownBy[r.Name]; isK {
 					knownHits = append(knownHits, fmt.Sprintf("KNOWN-FINDING: property=%s %s [%s]", cfg.prop, kf.What, r.Name))
 					continue
@@ -225,7 +243,7 @@ func report(cfg *config, e *Engine, results []*funcResult, tLoad, tGen, tSolve, 
 			violations = append(violations, fmt.Sprintf("VIOLATION property=%s replay=%s obligation=%s", cfg.prop, rp, r.Name))
 			continue
 		}
-		if inBase[r.Name] {
+		if inBase[baseKey(r.Name)] {
 			rp = writeReplay(replayDir, cfg, r, "obligation proved on the unchanged tree is no longer discharged ("+r.Status+")")
 			violations = append(violations, fmt.Sprintf("VIOLATION property=%s replay=%s obligation=%s no-failing-input-found", cfg.prop, rp, r.Name))
 			continue
@@ -235,7 +253,7 @@ func report(cfg *config, e *Engine, results []*funcResult, tLoad, tGen, tSolve, 
 	// baseline obligations that disappeared
 	var missing []string
 	for n := range inBase {
-		if !seen[n] && cfg.funcRe == "" {
+		if !seen[n] && cfg.funcRe == "" && !isSiteKey(n) {
 			missing = append(missing, n)
 		}
 	}
@@ -353,6 +371,23 @@ func report(cfg *config, e *Engine, results []*funcResult, tLoad, tGen, tSolve, 
 		return 2
 	}
 	if cfg.updateBaseline {
+		// aggregated site keys enter the baseline only if every site of that kind in the function was proved
+		failedKey := map[string]bool{}
+		for _, r := range rows {
+			if r.Kind != "cover" && r.Kind != "canary" && r.Status != "unsat" && r.Status != "trivial" {
+				failedKey[baseKey(r.Name)] = true
+			}
+		}
+		keys := map[string]bool{}
+		for _, n := range proved {
+			if k := baseKey(n); !failedKey[k] {
+				keys[k] = true
+			}
+		}
+		proved = proved[:0]
+		for k := range keys {
+			proved = append(proved, k)
+		}
 		sort.Strings(proved)
 		base.Proved[cfg.prop] = proved
 		writeJSON(filepath.Join(cfg.verif, "baseline", "obligations.json"), base)
